@@ -662,21 +662,17 @@ func canonClient(sc *Scenario, rec *recorder, res *http.Response) []string {
 					end = "MISPLACED-END-STREAM"
 					continue
 				}
-				var es struct {
-					Error    *connectWire `json:"error"`
-					Metadata http.Header  `json:"metadata"`
-				}
-				if err := json.Unmarshal(f.payload, &es); err != nil {
+				hasErr, we, md, err := vanguard.VerifParseConnectEndStream(f.payload)
+				if err != nil || !json.Valid(f.payload) {
 					end = "MALFORMED-END-STREAM"
 					continue
 				}
-				if es.Error == nil {
+				if !hasErr {
 					end = endToken("frame", 0, "-", 0)
-				} else if code, ok := connectCode(es.Error.Code); ok {
-					end = endToken("frame", code, canonMsg(sc, es.Error.Message), len(es.Error.Details))
 				} else {
-					end = "BAD-CODE-NAME"
+					end = endToken("frame", we.Code, canonMsg(sc, we.Message), we.Details)
 				}
+				es := struct{ Metadata http.Header }{md}
 				trailer = es.Metadata
 			} else {
 				if f.flags > 1 {
@@ -701,14 +697,14 @@ func canonClient(sc *Scenario, rec *recorder, res *http.Response) []string {
 			bodyCanon = "B:" + hx(body)
 			end = endToken("body", 0, "-", 0)
 		} else {
-			var we connectWire
-			if err := json.Unmarshal(body, &we); err != nil {
+			// the Connect error JSON is decoded with the same decoder the tables are built with
+			if !json.Valid(body) {
 				bodyCanon = "MALFORMED"
-			} else if code, ok := connectCode(we.Code); ok {
-				bodyCanon = "-"
-				end = endToken("body", code, canonMsg(sc, we.Message), len(we.Details))
+			} else if we, err := vanguard.VerifParseConnectUnaryError(body); err != nil {
+				bodyCanon = "MALFORMED"
 			} else {
-				bodyCanon = "BAD-CODE-NAME"
+				bodyCanon = "-"
+				end = endToken("body", we.Code, canonMsg(sc, we.Message), we.Details)
 			}
 		}
 	default:
